@@ -1080,7 +1080,23 @@ def case_molecules_large(rng, ctx):
         n = min(n, 3000)                       # one find_connected call per molecule, each O(n)
     if kind == "two_paths" and not deep_ok:
         n = 2 * SAFE_COMPONENT if rng.random() < 0.5 else n
-    lab, e = gen_large_graph(rng, kind, n)
+    if rng.random() < 0.06:
+        # a solvated system beyond 10000 atoms: three-atom molecules and single unbonded atoms (ions), nothing deep
+        kind = "waters_and_ions"
+        n = int(rng.choice([10001, 12000, 20003]))
+        ed, i = [], 0
+        while i < n:
+            if i + 2 < n and rng.random() < 0.8:
+                ed += [(i, i + 1), (i, i + 2)]
+                i += 3
+            else:
+                i += 1                      # an atom without any bond
+        lab, e = "sequential", np.array(ed, dtype=np.int64).reshape(-1, 2)
+        if rng.random() < 0.5:
+            perm = rng.permutation(n)
+            lab, e = "shuffled", perm[e]
+    else:
+        lab, e = gen_large_graph(rng, kind, n)
     ctx.log("graph", {"kind": kind, "n": n, "labels": lab, "edges_head": e[:4].tolist(), "n_edges": int(len(e))})
     ctx.mark_nontrivial(len(e) > 0)
     comp, of = ref_components(n, e)
